@@ -93,6 +93,13 @@ def r07_1(ctx, A, pv):
                               detail='path %s returns %s with %d inner flush call(s)' % (p.blocks, rk, len(fl)))
                     n_ok += 1
                 continue
+            if rk == 'err' and mname in ('write', 'write_all') and not inner:
+                # an error of the adapter's own making: the sink was not even asked.  Whatever state triggers it (a sticky "failed"
+                # flag set by a transient Interrupted, a budget, a size limit), the outcome now depends on that state and not on the
+                # answers of the sink - write_all's retry after Interrupted runs into it
+                ctx.violation(R, '%s:own-error' % mname, 'the counting writer\'s %s returns an error on a path that never forwards to the inner writer (%s): a sink that recovers (Interrupted, then success) still fails the build' % (
+                    mname, fmt(p.decisions[-1][2])[:80] if p.decisions else 'unconditionally'), fn=f)
+                continue
             if rk in ('residual', 'err'):
                 continue
             if rk != 'ok':
